@@ -27,10 +27,11 @@ def rule_histories(ctx):
 
 
 def rule_reset_complete(ctx):
-    from .c05 import rule_reset_restores_fresh_state
+    from .c05 import rule_cleanup_keeps_bookkeeping, rule_reset_restores_fresh_state
 
     rule_reset_completeness(ctx)
     rule_reset_restores_fresh_state(ctx)
+    rule_cleanup_keeps_bookkeeping(ctx)
     ctx.res.rule_instances["O8.2"] = ctx.res.rule_instances.get("O5.4", 0)
 
 
